@@ -95,16 +95,22 @@ def app_conf(d):
             {'name': 'cached', 'title': 'Cached', 'sources': ['c_merc']},
             {'name': 'geo', 'title': 'Geo', 'sources': ['c_geo']},
             {'name': 'covered', 'title': 'Covered', 'sources': ['up_cov']},
+            # a tile layer whose source covers a square degree only: most of its tiles are empty tiles
+            {'name': 'tcov', 'title': 'Tiles, covered', 'sources': ['c_cov']},
         ],
         'caches': {
             'c_merc': {'grids': ['GLOBAL_MERCATOR'], 'sources': ['up'],
                        'cache': {'type': 'file', 'directory': os.path.join(d, 'cm')}},
             'c_geo': {'grids': ['GLOBAL_GEODETIC'], 'sources': ['up'],
                       'cache': {'type': 'file', 'directory': os.path.join(d, 'cg')}},
+            'c_cov': {'grids': ['GLOBAL_MERCATOR'], 'sources': ['up_tcov'],
+                      'cache': {'type': 'file', 'directory': os.path.join(d, 'cc')}},
         },
         'sources': {
             'up': {'type': 'wms', 'req': {'url': 'http://upstream.invalid/wms', 'layers': 'x'},
                    'wms_opts': {'featureinfo': True, 'legendgraphic': True}},
+            'up_tcov': {'type': 'tile', 'url': 'http://upstream.invalid/t/%(z)s/%(x)s/%(y)s.png', 'grid': 'GLOBAL_MERCATOR',
+                        'coverage': {'bbox': [0, 0, 1, 1], 'srs': 'EPSG:4326'}},
             'up_cov': {'type': 'wms', 'req': {'url': 'http://upstream.invalid/wms', 'layers': 'y'},
                        'wms_opts': {'featureinfo': True}, 'coverage': {'bbox': [0, 0, 1, 1], 'srs': 'EPSG:4326'}},
         },
@@ -169,6 +175,12 @@ class World(object):
                'SERVER_PROTOCOL': 'HTTP/1.1', 'wsgi.version': (1, 0), 'wsgi.url_scheme': 'http',
                'wsgi.input': io.BytesIO(b''), 'wsgi.errors': errors, 'wsgi.multithread': False,
                'wsgi.multiprocess': False, 'wsgi.run_once': False}
+        # every other request comes from a server that offers wsgi.file_wrapper (PEP 3333: optional; wsgiref, gunicorn,
+        # uwsgi, mod_wsgi do) and closes the iterable after sending, as the servers do
+        self.ncalls = getattr(self, 'ncalls', 0) + 1
+        if self.ncalls % 2 == 0:
+            from wsgiref.util import FileWrapper
+            env['wsgi.file_wrapper'] = FileWrapper
         for k, v in headers.items():
             env['HTTP_' + k.upper().replace('-', '_')] = v
         out = {'path': path, 'qs': qs, 'headers_in': dict(headers)}
@@ -194,6 +206,40 @@ class World(object):
         out['chunks'] = chunks
         out['log'] = errors.getvalue()
         return out
+
+    def call_overlapped(self, paths):
+        """several GET requests answered by the application before the first body is read (a threaded server does that):
+        -> raw outcomes in the order of `paths`"""
+        pending = []
+        for path in paths:
+            env = {'REQUEST_METHOD': 'GET', 'SCRIPT_NAME': '', 'PATH_INFO': path, 'QUERY_STRING': '',
+                   'SERVER_NAME': 'localhost', 'SERVER_PORT': '80', 'HTTP_HOST': 'localhost',
+                   'SERVER_PROTOCOL': 'HTTP/1.1', 'wsgi.version': (1, 0), 'wsgi.url_scheme': 'http',
+                   'wsgi.input': io.BytesIO(b''), 'wsgi.errors': io.StringIO(), 'wsgi.multithread': True,
+                   'wsgi.multiprocess': False, 'wsgi.run_once': False}
+            out = {'path': path, 'qs': '', 'headers_in': {}, 'raised': None, 'log': ''}
+            started = []
+            try:
+                it = self.app(env, lambda status, hdrs, exc_info=None, started=started: started.append((status, hdrs)) or (lambda d: None))
+            except Exception as ex:
+                out['raised'] = '%s: %s' % (type(ex).__name__, str(ex)[:200])
+                it = None
+            pending.append((out, started, it))
+        outs = []
+        for out, started, it in pending:
+            if it is not None:
+                try:
+                    try:
+                        out['chunks'] = list(it)
+                    finally:
+                        if hasattr(it, 'close'):
+                            it.close()
+                except Exception as ex:
+                    out['raised'] = '%s: %s' % (type(ex).__name__, str(ex)[:200])
+                out['started'] = len(started)
+                out['status'], out['headers'] = started[-1] if started else (None, [])
+            outs.append(out)
+        return outs
 
 
 # ------------------------------------------------------------------------------------------------------------
